@@ -642,6 +642,37 @@ func c12WitnessCases(emit func(c12Case)) {
 		}
 	}
 	emit(c12Case{Leg: "boundary", ID: 1, Note: "capacity", Honest: true, Msgs: d.msgs, Ops: d.ops})
+
+	// BufferSound.refragmented_retransmission_refuted (K-C12-1): a 200-byte message first sent in 100-byte
+	// fragments, only [0,100) arrives; the peer then retransmits the whole message in 150-byte
+	// fragments, twice. Every byte has arrived (most of them three times).
+	rb := make([]byte, 200)
+	for i := range rb {
+		rb[i] = byte(i + 1)
+	}
+	rm := c12Msg{Ty: 11, Seq: 0, Len: 200, Mtu: 100, body: rb, Body: hex.EncodeToString(rb)}
+	d = &c12Driver{fb: New(), small: true, msgs: []c12Msg{rm}}
+	d.push(one(c12Slice(rm, 0, 100)))
+	for round := 0; round < 2; round++ {
+		for _, x := range c12Split(rm, 150) {
+			d.push(one(x))
+		}
+	}
+	emit(c12Case{Leg: "boundary", ID: 2, Note: "refragmented-retransmission", Honest: true, Msgs: d.msgs, Ops: d.ops})
+
+	// BufferSound.epoch_splice_refuted (K-C12-2): a forged fragment in an unprotected epoch-0 record takes
+	// offset 10 of a 20-byte message whose genuine fragments then arrive in epoch-2 records
+	gb := make([]byte, 20)
+	for i := range gb {
+		gb[i] = byte(7*i + 1)
+	}
+	gm := c12Msg{Ty: 11, Seq: 0, Len: 20, Mtu: 10, body: gb, Body: hex.EncodeToString(gb)}
+	d = &c12Driver{fb: New(), small: true, raw: true, msgs: []c12Msg{gm}}
+	d.push(c12Rec{Kind: "hs", Ep: 0, Frags: []c12Frag{{Ty: 11, Len: 20, Seq: 0, Off: 10, Flen: 10, data: bytes.Repeat([]byte{0xEE}, 10)}}})
+	for _, x := range c12Split(gm, 10) {
+		d.push(c12Rec{Kind: "hs", Ep: 2, Frags: []c12Frag{x}})
+	}
+	emit(c12Case{Leg: "boundary", ID: 3, Note: "epoch-splice", Msgs: d.msgs, Ops: d.ops})
 }
 
 func c12Slice(m c12Msg, off, fl int) c12Frag {
